@@ -75,7 +75,18 @@ def validate_is_bytes(value):
         raise ValidationError("not bytes: %r" % value)   # TypeError for a tuple argument
 '''
 
+ARGX_CTL = '''
+def validate_length(value, length):
+    if len(value) != length:
+        raise ValueError(value)
+
+
+def validate_is_node(node, length):
+    validate_length(length, node)     # crossed
+'''
+
 CONTROLS = {
+    "ARGX": (None, {"trie/validation.py": ARGX_CTL}, "crossed-arguments:validate_is_node"),
     "VALMSG": (None, {"trie/validation.py": VALMSG_CTL}, "refusal-message:validate_is_bytes"),
     "EXCORIGIN": (None, {"trie/validation.py": VALMSG_CTL}, "exception-origin:trie.validation:ValidationError"),
     "IDENT": (None, {"trie/validation.py": IDENT_CTL}, "identity-test:validate_is_bytes"),
